@@ -25,6 +25,68 @@ pub fn pat_name(uid: u16) -> &'static str {
     })[uid as usize]
 }
 
+/// Matchers written with the real `matching!` macro, by accepted set. One-argument methods: every
+/// subset of the domain {0,1,2,3} as an or-pattern; two-argument methods: a table of forms (simple,
+/// disjunctive, with a guard over an or-bound variable).
+pub trait MacroInputs: Sized + 'static {
+    fn table<F: for<'i> MockFn<Inputs<'i> = Self>>(pred: u32) -> Option<&'static dyn Fn(&mut Matching<F>)>;
+}
+
+impl MacroInputs for u8 {
+    fn table<F: for<'i> MockFn<Inputs<'i> = u8>>(pred: u32) -> Option<&'static dyn Fn(&mut Matching<F>)> {
+        Some(match pred & 0xf {
+            0x0 => matching!((x) if *x > 200),
+            0x1 => matching!(0),
+            0x2 => matching!(1),
+            0x3 => matching!(0 | 1),
+            0x4 => matching!(2),
+            0x5 => matching!(0 | 2),
+            0x6 => matching!(1..=2),
+            0x7 => matching!(0..=2),
+            0x8 => matching!(3),
+            0x9 => matching!(0 | 3),
+            0xa => matching!(1 | 3),
+            0xb => matching!((x) if *x != 2),
+            0xc => matching!(2 | 3),
+            0xd => matching!(0 | 2 | 3),
+            0xe => matching!(1..=3),
+            _ => matching!(_),
+        })
+    }
+}
+
+pub const MACRO_PREDS_2: &[u32] = &[0xffff, 0x1111, 0x0ff0, 0x4010, 0xf888, 0x8421];
+
+impl MacroInputs for (u8, u8) {
+    fn table<F: for<'i> MockFn<Inputs<'i> = (u8, u8)>>(pred: u32) -> Option<&'static dyn Fn(&mut Matching<F>)> {
+        Some(match pred {
+            0xffff => matching!(_, _),
+            0x1111 => matching!(0, _),
+            0x0ff0 => matching!(_, 1 | 2),
+            0x4010 => matching!((0, 1) | (2, 3)),
+            // Rust semantics: the guard is tried for every alternative that matches structurally
+            0xf888 => matching!((x, _) | (_, x) if *x > 2),
+            0x8421 => matching!((a, b) if a == b),
+            _ => return None,
+        })
+    }
+}
+
+macro_rules! no_macro_inputs {
+    ($($t:ty),*) => {$(
+        impl MacroInputs for $t {
+            fn table<F: for<'i> MockFn<Inputs<'i> = Self>>(_: u32) -> Option<&'static dyn Fn(&mut Matching<F>)> {
+                None
+            }
+        }
+    )*};
+}
+no_macro_inputs!(u16, DbgArg);
+
+fn macro_matcher<I: MacroInputs, F: for<'i> MockFn<Inputs<'i> = I>>(pred: u32) -> Option<&'static dyn Fn(&mut Matching<F>)> {
+    I::table::<F>(pred)
+}
+
 /// Generates, for one signature shape, the generic functions that turn a `ClauseSpec` into a
 /// `DynClause` for any MockFn `F` of that shape.
 macro_rules! shape {
@@ -54,8 +116,16 @@ macro_rules! shape {
             fn matcher<F: Shape>(uid: u16, p: &PatternSpec) -> impl Fn(&mut Matching<F>) {
                 let pred = p.pred;
                 let has = p.has_matcher;
+                let macro_form = p.macro_form;
                 move |m: &mut Matching<F>| {
-                    if has {
+                    if macro_form {
+                        // a matcher produced by the real `matching!` macro
+                        if let Some(f) = macro_matcher::<$inputs, F>(pred) {
+                            f(m);
+                        } else {
+                            m.func(move |$iv: &$inputs, _| matcher_body(uid, pred, $idx));
+                        }
+                    } else if has {
                         m.func(move |$iv: &$inputs, _| matcher_body(uid, pred, $idx));
                     }
                     m.pat_debug(pat_name(uid), "cfg", uid as u32);
@@ -306,7 +376,7 @@ fn clause_for(spec: &ClauseSpec, uids: &[u16]) -> DynClause {
         M::S2 => ref1::clause(SkipMock::s2, spec, uids),
         M::D0 => dbg1::clause(DbgTMock::d0, spec, uids),
         other @ (M::LendA | M::LendB | M::LendMut | M::Lent | M::LendClone | M::LendVia | M::OwnSingle | M::OwnMulti
-        | M::OwnOpt | M::OwnRes | M::OwnTup | M::OwnTup1 | M::OwnVec) => {
+        | M::OwnOpt | M::OwnRes | M::OwnTup | M::OwnTup1 | M::OwnVec | M::OwnTup3) => {
             panic!("{other:?} is configured through Config::specials")
         }
         M::Af => ref1::clause(AsyncAMock::af, spec, uids),
@@ -554,6 +624,11 @@ fn special_clause(sp: &Special) -> DynClause {
             OwnMock::own_tup1
                 .some_call(matching!(_))
                 .returns((7u32, Tracked::new(&tracker, *id))),
+        ),
+        Special::OwnTup3 { id } => DynClause::new(
+            OwnMock::own_tup3
+                .some_call(matching!(_))
+                .returns((7u32, Tracked::new(&tracker, *id), Tracked::new(&tracker, *id + 1))),
         ),
         Special::OwnVec { id } => DynClause::new(
             OwnMock::own_vec
